@@ -15,6 +15,7 @@ import (
 	"github.com/elastic/go-libaudit/v2/vshim/vtime"
 
 	"verif/engine/ev"
+	"verif/engine/ksim"
 	"verif/engine/par"
 )
 
@@ -24,6 +25,9 @@ type Job struct {
 	Histories [][]int
 	NRules    int
 	Bound     int
+	Shape     ksim.Shape
+	Shapes    []ksim.Shape // sweep jobs: every history under every shape
+	Guard     bool
 }
 
 // JobResult is what a worker returns.
@@ -211,14 +215,16 @@ func doReplay(path string) int {
 			History []int
 			NRules  int
 			Env     []int
+			Shape   ksim.Shape
+			Guard   bool
 		}
 		_ = json.Unmarshal(c.Replay, &rp)
 		var vs []Viol
 		switch rp.Kind {
 		case "c08":
-			vs = replayC08(rp.History, rp.NRules, rp.Env)
+			vs = replayC08(rp.History, rp.NRules, rp.Env, rp.Shape, rp.Guard)
 		case "c17":
-			vs = replayC17(rp.History, rp.Env)
+			vs = replayC17(rp.History, rp.Env, rp.Shape)
 		default:
 			fmt.Println("case is not replayable by history (", string(c.Replay), "); re-run the check")
 			continue
